@@ -9,5 +9,6 @@ INVARIANT NamesAreStatic
 INVARIANT ImportsSucceed
 INVARIANT AllAdvertised
 INVARIANT GlobalsResolve
+INVARIANT LocalsResolve
 INVARIANT ChainsResolve
 CHECK_DEADLOCK FALSE
